@@ -296,6 +296,7 @@ func (w *World) proberTask(t *simcore.Task) {
 // retained snapshots are re-read a last time (C01).
 func (w *World) finalChecks() {
 	s := w.S
+	s.Calm()
 	s.Spawn("final", func(t *simcore.Task) {
 		t.Data = &taskCtx{role: "final"}
 		c := w.C
@@ -309,6 +310,7 @@ func (w *World) finalChecks() {
 				}
 				continue
 			}
+			ic.caughtUp = false
 			for round := 0; round < 8 && !ic.caughtUp; round++ {
 				rtxn := w.db.ReadTxn()
 				sn := w.bind(rtxn, "final drain snapshot", nil)
